@@ -183,8 +183,14 @@ def generate(seed, tier):
                                        ["i", self.rng.choice([2, 3])]]]
             return super().node(cls, depth)
 
+    # (compiled expressions) sometimes every variable is an instance of a user subclass
+    cvar_class = r.choice([None, None, None, "SubVariable", "LegacyVar"])
     ga = _ArithGen(r, classes=ARITH, max_depth=3, pool=[], idents=["x", "y", "z"], p_leaf=0.35,
-                   const_kinds=("i", "f"), const_values=(1, 2, 3, 5))
+                   const_kinds=("i", "f"), const_values=(1, 2, 3, 5),
+                   leaf_classes=(cvar_class or "Variable",))
+    ga.extra_fields = {"SubVariable": ["s"], "LegacyVar": ["s"]}
+    if cvar_class:
+        ga.classes = [cvar_class if c == "Variable" else c for c in ga.classes]
     terms = []
     for _ in range(r.randint(2, 5)):
         t = g.term(0)
@@ -289,6 +295,8 @@ def generate(seed, tier):
             if use_ctx:
                 listed = r.choice([["x", "y", "z"], ["z", "x", "y"]])
                 how = dict(how or {}, with_context=True)
+            elif cvar_class and r.random() < 0.7:
+                how = dict(how or {}, var_class=cvar_class)
             ops.append(["compile", n, h, listed, c] + ([how] if how else []))
             args = [r.choice([["i", 2], ["f", "1.5"], ["i", 3], ["f", "0.25"]]) for _ in range(3)]
             ops.append(["call", n, c, args])
@@ -556,7 +564,8 @@ def execute(scenario, open_sigs):
                 if (n, h) in handle_term:
                     r = rq(n, dict({"op": "compile", "h": h, "c": c, "vars": listed}, **how))
                     t = handle_term[(n, h)]
-                    key = (jkey(t), tuple(listed))
+                    key = (jkey(t), tuple(listed), how.get("var_class"),
+                           bool(how.get("with_context")))
                     first = compile_outcome.setdefault(key, r["compiled"])
                     if first != r["compiled"]:
                         viol("C17/compile-outcome-differs", {"op": opi, "term": t, "vars": listed})
